@@ -6,7 +6,6 @@ as "starting_q" that coincide with decoration nodes included).
 import Pfl.Model.Networkx
 import Pfl.Props.C20_Labels
 import Pfl.Proofs.Networkx
-import Std.Data.String.ToInt
 namespace Pfl
 namespace Nx
 open LabelCodec Pfl.Nx.Lem
@@ -112,50 +111,67 @@ structure PDA.WF (J : Json) (P : PDA) : Prop where
   finals : ∀ q ∈ P.finals, q ∈ P.states
   delta : ∀ t ∈ P.delta, t.1 ∈ P.states ∧ t.2.2.2.1 ∈ P.states
   labels : ∀ t ∈ P.delta, PdaLabelOK (J.dumps t.2.1) (J.dumps t.2.2.1) (J.dumpsL t.2.2.2.2)
-  /-- without a start stack symbol the node name of the hidden stack node must not be a state
-  (`PDA.roundtrip_needs_hidden`: the import raises otherwise) -/
-  hidden : P.startStack = none → hiddenStack ∉ P.states
 
-theorem PDA.roundtrip (J : Json) (hJ : JsonOK J) (P : PDA) (h : P.WF J) :
-    ∃ Q, PDA.fromNetworkx J (P.toNetworkx J) = some Q ∧
+/-- the graph after the state pass and the hidden node of `PDA.to_networkx` (before the transitions) -/
+def PDA.nodeGraph (J : Json) (P : PDA) : Graph (List Char) :=
+  let g0 : Graph (List Char) :=
+    P.states.foldl (stateStep (fun q => decide (some q = P.start)) (fun q => decide (q ∈ P.finals))) {}
+  match P.startStack with
+  | some z => g0.addNode hiddenStack { label := some (.str (String.ofList (J.dumps z))), initialStack := some (J.dumps z) }
+  | none => g0
+
+theorem PDA.nodeGraph_inv (J : Json) (P : PDA) :
+    Inv (fun q => decide (some q = P.start)) (fun q => decide (q ∈ P.finals)) P.states (P.nodeGraph J) := by
+  have hinv0 := inv_statePass (L := List Char) (sflag := fun q => decide (some q = P.start))
+    (fflag := fun q => decide (q ∈ P.finals)) P.states
+  unfold PDA.nodeGraph
+  simp only
+  split
+  · exact hinv0.addDeco _ _ rfl rfl
+  · exact hinv0
+
+/-- `PDA.to_networkx`: the node graph plus one labelled edge per transition -/
+theorem PDA.toNetworkx_eq (J : Json) (P : PDA) (h : P.WF J) :
+    P.toNetworkx J =
+      { nodes := (P.nodeGraph J).nodes
+        edges := (P.nodeGraph J).edges ++ P.delta.map fun t =>
+          (t.1, t.2.2.2.1, some (pdaLabel (J.dumps t.2.1) (J.dumps t.2.2.1) (J.dumpsL t.2.2.2.2))) } := by
+  have hinv := PDA.nodeGraph_inv J P
+  rw [← foldl_addEdge (fun t : Val × Val × Val × Val × List Val => t.1) (fun t => t.2.2.2.1)
+    (fun t => some (pdaLabel (J.dumps t.2.1) (J.dumps t.2.2.1) (J.dumpsL t.2.2.2.2)))]
+  · have hfun : (fun (g : Graph (List Char)) q =>
+        if some q = P.start then
+          addMarker (g.addNode q ⟨some (decide (some q = P.start)), some (decide (q ∈ P.finals)), some q, none⟩) q
+        else g.addNode q ⟨some (decide (some q = P.start)), some (decide (q ∈ P.finals)), some q, none⟩) =
+        stateStep (fun q => decide (some q = P.start)) (fun q => decide (q ∈ P.finals)) := by
+      funext g q
+      simp [stateStep]
+    unfold PDA.toNetworkx PDA.nodeGraph
+    simp only []
+    rw [hfun]
+    rfl
+  · intro t ht
+    exact ⟨hinv.nodes _ (h.delta t ht).1, hinv.nodes _ (h.delta t ht).2⟩
+
+/-- the import of a graph made of nodes that satisfy the state-pass invariant and from which the start stack
+symbol is read back, plus the transition edges of `P` -/
+theorem PDA.import_of_nodes (J : Json) (hJ : JsonOK J) (P : PDA) (h : P.WF J) (g1 : Graph (List Char))
+    (hinv : Inv (fun q => decide (some q = P.start)) (fun q => decide (q ∈ P.finals)) P.states g1)
+    (hstack : readStack J g1 = some P.startStack) :
+    ∃ Q, PDA.fromNetworkx J
+        { nodes := g1.nodes
+          edges := g1.edges ++ P.delta.map fun t =>
+            (t.1, t.2.2.2.1, some (pdaLabel (J.dumps t.2.1) (J.dumps t.2.2.1) (J.dumpsL t.2.2.2.2))) } = some Q ∧
       (∀ q, q ∈ Q.states ↔ q ∈ P.states) ∧ Q.start = P.start ∧ Q.startStack = P.startStack ∧
       (∀ q, q ∈ Q.finals ↔ q ∈ P.finals) ∧ (∀ t, t ∈ Q.delta ↔ t ∈ P.delta) := by
-  let sflag : Val → Bool := fun q => decide (some q = P.start)
-  let fflag : Val → Bool := fun q => decide (q ∈ P.finals)
   let lab : Val × Val × Val × Val × List Val → List Char :=
     fun t => pdaLabel (J.dumps t.2.1) (J.dumps t.2.2.1) (J.dumpsL t.2.2.2.2)
-  let g0 : Graph (List Char) := P.states.foldl (stateStep sflag fflag) {}
-  let g1 : Graph (List Char) := match P.startStack with
-    | some z => g0.addNode hiddenStack { label := some (.str (String.ofList (J.dumps z))) }
-    | none => g0
-  have hinv0 : Inv sflag fflag P.states g0 := inv_statePass P.states
-  have hnames0 : Names P.states g0 := names_statePass P.states
-  have hinv : Inv sflag fflag P.states g1 := by
-    simp only [g1]
-    split
-    · exact hinv0.addLabel _ _
-    · exact hinv0
-  have hg : P.toNetworkx J =
-      { nodes := g1.nodes, edges := g1.edges ++ P.delta.map fun t => (t.1, t.2.2.2.1, some (lab t)) } := by
-    rw [← foldl_addEdge (fun t : Val × Val × Val × Val × List Val => t.1) (fun t => t.2.2.2.1)
-      (fun t => some (lab t))]
-    · have hfun : (fun (g : Graph (List Char)) q =>
-          if some q = P.start then
-            addMarker (g.addNode q ⟨some (decide (some q = P.start)), some (decide (q ∈ P.finals)), some q⟩) q
-          else g.addNode q ⟨some (decide (some q = P.start)), some (decide (q ∈ P.finals)), some q⟩) =
-          stateStep sflag fflag := by
-        funext g q
-        simp [stateStep, sflag, fflag]
-      unfold PDA.toNetworkx
-      simp only []
-      rw [hfun]
-      rfl
-    · intro t ht
-      exact ⟨hinv.nodes _ (h.delta t ht).1, hinv.nodes _ (h.delta t ht).2⟩
-  have hts : allSome ((P.toNetworkx J).edges.filterMap fun e => e.2.2.map fun l => PDA.readEdge J e.1 e.2.1 l)
+  let G : Graph (List Char) :=
+    { nodes := g1.nodes, edges := g1.edges ++ P.delta.map fun t => (t.1, t.2.2.2.1, some (lab t)) }
+  show ∃ Q, PDA.fromNetworkx J G = some Q ∧ _
+  have hts : allSome (G.edges.filterMap fun e => e.2.2.map fun l => PDA.readEdge J e.1 e.2.1 l)
       = some P.delta := by
-    rw [hg]
-    simp only
+    simp only [G]
     rw [filterMap_labelled (fun e l => PDA.readEdge J e.1 e.2.1 l) _ hinv.edges]
     rw [← allSome_map_some P.delta]
     congr 1
@@ -164,31 +180,28 @@ theorem PDA.roundtrip (J : Json) (hJ : JsonOK J) (P : PDA) (h : P.WF J) :
     have hl := h.labels _ ht
     simp only [PDA.readEdge, lab, readPdaLabel_pdaLabel _ _ _ hl.1 hl.2.1 hl.2.2.1 hl.2.2.2,
       hJ.loads_dumps, hJ.loadsL_dumpsL]
-  have hstarts : ∀ q, q ∈ ((P.toNetworkx J).nodes.filter fun n => n.2.isStart.getD false).map (·.1) ↔
+  have hstarts : ∀ q, q ∈ (G.nodes.filter fun n => n.2.isStart.getD false).map (·.1) ↔
       some q = P.start := by
     intro q
-    rw [hg]
-    simp only
+    simp only [G]
     rw [hinv.mem_starts]
-    simp only [sflag, decide_eq_true_eq, and_iff_right_iff_imp]
+    simp only [decide_eq_true_eq, and_iff_right_iff_imp]
     intro hq
     exact h.start q hq.symm
-  have hfinals : ∀ q, q ∈ ((P.toNetworkx J).nodes.filter fun n => n.2.isFinal.getD false).map (·.1) ↔
+  have hfinals : ∀ q, q ∈ (G.nodes.filter fun n => n.2.isFinal.getD false).map (·.1) ↔
       q ∈ P.finals := by
     intro q
-    rw [hg]
-    simp only
+    simp only [G]
     rw [hinv.mem_finals]
-    simpa [fflag] using h.finals q
-  have hnodes : ∀ q, q ∈ ((P.toNetworkx J).nodes.filter fun n => n.2.isFinal.isSome).map (·.1) ↔
+    simpa using h.finals q
+  have hnodes : ∀ q, q ∈ (G.nodes.filter fun n => n.2.isFinal.isSome).map (·.1) ↔
       q ∈ P.states := by
     intro q
-    rw [hg]
     exact hinv.mem_stateNodes q
-  have hstart : (((P.toNetworkx J).nodes.filter fun n => n.2.isStart.getD false).map (·.1)).getLast? = P.start := by
+  have hstart : ((G.nodes.filter fun n => n.2.isStart.getD false).map (·.1)).getLast? = P.start := by
     cases hs : P.start with
     | none =>
-      have : ((P.toNetworkx J).nodes.filter fun n => n.2.isStart.getD false).map (·.1) = [] := by
+      have : (G.nodes.filter fun n => n.2.isStart.getD false).map (·.1) = [] := by
         rw [List.eq_nil_iff_forall_not_mem]
         intro q hq
         rw [hstarts, hs] at hq
@@ -200,49 +213,23 @@ theorem PDA.roundtrip (J : Json) (hJ : JsonOK J) (P : PDA) (h : P.WF J) :
         rw [hstarts, hs] at hx
         exact Option.some.inj hx
       · rw [hstarts, hs]
-  have e1 : (P.toNetworkx J).hasNode hiddenStack = g1.hasNode hiddenStack := by rw [hg]; rfl
-  have e2 : (P.toNetworkx J).attrs hiddenStack = g1.attrs hiddenStack := by rw [hg]; rfl
-  have hcase : (P.startStack = none ∧ g1.hasNode hiddenStack = false) ∨
-      (∃ z, P.startStack = some z ∧ g1.hasNode hiddenStack = true ∧
-        (g1.attrs hiddenStack).label = some (.str (String.ofList (J.dumps z)))) := by
-    cases hz : P.startStack with
-    | none =>
-      have hg1 : g1 = g0 := by simp only [g1, hz]
-      refine Or.inl ⟨rfl, ?_⟩
-      rw [hg1]
-      cases hh : g0.hasNode hiddenStack with
-      | false => rfl
-      | true =>
-        rcases hnames0 _ hh with hm | ⟨v, hv⟩
-        · exact absurd hm (h.hidden hz)
-        · exact absurd hv.symm (marker_ne_hidden v)
-    | some z =>
-      have hg1 : g1 = g0.addNode hiddenStack { label := some (.str (String.ofList (J.dumps z))) } := by
-        simp only [g1, hz]
-      have hh : g1.hasNode hiddenStack = true := by
-        rw [hg1, hasNode_addNode]; exact Or.inr rfl
-      have hl : (g1.attrs hiddenStack).label = some (.str (String.ofList (J.dumps z))) := by
-        have := attrs_mem hh
-        rw [hg1] at this ⊢
-        exact label_addNode this
-      exact Or.inr ⟨z, rfl, hh, hl⟩
-  unfold PDA.fromNetworkx
-  rw [hts]
-  simp only
-  rw [e1, e2]
-  have hstack : ∀ X : Option (Option Val), X = some P.startStack → ∀ F : Option Val → PDA,
+  have hstack' : ∀ X : Option (Option Val), X = some P.startStack → ∀ F : Option Val → PDA,
       ∃ Q, X.map F = some Q ∧ Q = F P.startStack := by
     rintro X rfl F
     exact ⟨_, rfl, rfl⟩
-  obtain ⟨Q, hQ, hQ'⟩ := hstack (if g1.hasNode hiddenStack then
-      match (g1.attrs hiddenStack).label with
-      | some (.str txt) => (J.loads txt.toList).map some
-      | some (.int _) => none
-      | none => none
-    else some none) (by
-      rcases hcase with ⟨hz, hh⟩ | ⟨z, hz, hh, hl⟩
-      · simp [hh, hz]
-      · simp [hh, hl, hz, hJ.loads_dumps]) _
+  have hG : readStack J G = some P.startStack := hstack
+  unfold PDA.fromNetworkx
+  rw [hts]
+  simp only
+  obtain ⟨Q, hQ, hQ'⟩ := hstack' (readStack J G) hG
+    (fun z =>
+      { states := (P.delta.flatMap fun t => [t.1, t.2.2.2.1]) ++
+          (G.nodes.filter fun n => n.2.isFinal.isSome).map (·.1) ++
+          (G.nodes.filter fun n => n.2.isStart.getD false).map (·.1)
+        start := ((G.nodes.filter fun n => n.2.isStart.getD false).map (·.1)).getLast?
+        startStack := z
+        finals := (G.nodes.filter fun n => n.2.isFinal.getD false).map (·.1)
+        delta := P.delta })
   refine ⟨Q, hQ, ?_⟩
   subst hQ'
   refine ⟨?_, hstart, rfl, hfinals, fun t => Iff.rfl⟩
@@ -259,6 +246,110 @@ theorem PDA.roundtrip (J : Json) (hJ : JsonOK J) (P : PDA) (h : P.WF J) :
   · intro hq
     exact Or.inl (Or.inr hq)
 
+/-- what the state pass leaves on a node called INITIAL_STACK_HIDDEN: it is a state, it carries `is_final`
+and no `initial_stack` -/
+theorem PDA.statePass_hidden (P : PDA) (b : Attrs)
+    (hb : (hiddenStack, b) ∈ (P.states.foldl
+      (stateStep (fun q => decide (some q = P.start)) (fun q => decide (q ∈ P.finals))) ({} : Graph (List Char))).nodes) :
+    hiddenStack ∈ P.states ∧ b.initialStack = none ∧ b.isFinal.isSome = true := by
+  have hinv0 := inv_statePass (L := List Char) (sflag := fun q => decide (some q = P.start))
+    (fflag := fun q => decide (q ∈ P.finals)) P.states
+  have hnames0 := names_statePass (L := List Char) (sflag := fun q => decide (some q = P.start))
+    (fflag := fun q => decide (q ∈ P.finals)) P.states
+  have hno0 := noStack_statePass (L := List Char) (sflag := fun q => decide (some q = P.start))
+    (fflag := fun q => decide (q ∈ P.finals)) P.states
+  have hm : hiddenStack ∈ P.states := by
+    rcases hnames0 _ ((hasNode_iff _ _).2 ⟨b, hb⟩) with hm | ⟨v, hv⟩
+    · exact hm
+    · exact absurd hv.symm (marker_ne_hidden v)
+  refine ⟨hm, hno0 _ _ hb, ?_⟩
+  rw [(hinv0.attrsIn _ _ hb hm).2]
+  rfl
+
+/-- the start stack symbol is read back from the exported nodes, whatever the states are called -/
+theorem PDA.readStack_nodeGraph (J : Json) (hJ : JsonOK J) (P : PDA) :
+    readStack J (P.nodeGraph J) = some P.startStack := by
+  cases hz : P.startStack with
+  | none =>
+    have hg1 : P.nodeGraph J = P.states.foldl
+        (stateStep (fun q => decide (some q = P.start)) (fun q => decide (q ∈ P.finals))) {} := by
+      simp only [PDA.nodeGraph, hz]
+    rw [hg1]
+    apply readStack_state
+    intro b hb
+    exact (PDA.statePass_hidden P b hb).2
+  | some z =>
+    have hg1 : P.nodeGraph J = (P.states.foldl
+        (stateStep (fun q => decide (some q = P.start)) (fun q => decide (q ∈ P.finals))) {}).addNode hiddenStack
+          { label := some (.str (String.ofList (J.dumps z))), initialStack := some (J.dumps z) } := by
+      simp only [PDA.nodeGraph, hz]
+    rw [hg1, readStack_attr J (txt := J.dumps z), hJ.loads_dumps]
+    · rfl
+    · intro b hb
+      exact (set_addNode hb).2 _ rfl
+    · rw [hasNode_addNode]; exact Or.inr rfl
+
+theorem PDA.roundtrip (J : Json) (hJ : JsonOK J) (P : PDA) (h : P.WF J) :
+    ∃ Q, PDA.fromNetworkx J (P.toNetworkx J) = some Q ∧
+      (∀ q, q ∈ Q.states ↔ q ∈ P.states) ∧ Q.start = P.start ∧ Q.startStack = P.startStack ∧
+      (∀ q, q ∈ Q.finals ↔ q ∈ P.finals) ∧ (∀ t, t ∈ Q.delta ↔ t ∈ P.delta) := by
+  rw [PDA.toNetworkx_eq J P h]
+  exact PDA.import_of_nodes J hJ P h _ (PDA.nodeGraph_inv J P) (PDA.readStack_nodeGraph J hJ P)
+
+/-- a graph written by the library before the attribute `initial_stack` existed (`Graph.eraseStack`: the same
+graph without that attribute) is still imported: the start stack symbol is read from the label of the
+decoration node.  As before the repair this needs that no state is called INITIAL_STACK_HIDDEN when there
+is a start stack symbol (the node would carry `is_final` and be taken for a state); without a start stack
+symbol the name is free (KF-C20-1 repaired for old graphs too). -/
+theorem PDA.import_old_format (J : Json) (hJ : JsonOK J) (P : PDA) (h : P.WF J)
+    (hh : P.startStack ≠ none → hiddenStack ∉ P.states) :
+    ∃ Q, PDA.fromNetworkx J (P.toNetworkx J).eraseStack = some Q ∧
+      (∀ q, q ∈ Q.states ↔ q ∈ P.states) ∧ Q.start = P.start ∧ Q.startStack = P.startStack ∧
+      (∀ q, q ∈ Q.finals ↔ q ∈ P.finals) ∧ (∀ t, t ∈ Q.delta ↔ t ∈ P.delta) := by
+  have hinv := PDA.nodeGraph_inv J P
+  have he : (P.toNetworkx J).eraseStack =
+      { nodes := (P.nodeGraph J).eraseStack.nodes
+        edges := (P.nodeGraph J).eraseStack.edges ++ P.delta.map fun t =>
+          (t.1, t.2.2.2.1, some (pdaLabel (J.dumps t.2.1) (J.dumps t.2.2.1) (J.dumpsL t.2.2.2.2))) } := by
+    rw [PDA.toNetworkx_eq J P h]
+    rfl
+  rw [he]
+  refine PDA.import_of_nodes J hJ P h _ hinv.eraseStack ?_
+  cases hz : P.startStack with
+  | none =>
+    have hg1 : P.nodeGraph J = P.states.foldl
+        (stateStep (fun q => decide (some q = P.start)) (fun q => decide (q ∈ P.finals))) {} := by
+      simp only [PDA.nodeGraph, hz]
+    rw [hg1]
+    apply readStack_state
+    intro b hb
+    obtain ⟨a, ha, rfl⟩ := mem_eraseStack.1 hb
+    exact ⟨rfl, (PDA.statePass_hidden P a ha).2.2⟩
+  | some z =>
+    have hnot : hiddenStack ∉ P.states := hh (by rw [hz]; exact Option.some_ne_none z)
+    have hg1 : P.nodeGraph J = (P.states.foldl
+        (stateStep (fun q => decide (some q = P.start)) (fun q => decide (q ∈ P.finals))) {}).addNode hiddenStack
+          { label := some (.str (String.ofList (J.dumps z))), initialStack := some (J.dumps z) } := by
+      simp only [PDA.nodeGraph, hz]
+    rw [readStack_label J (txt := String.ofList (J.dumps z)), String.toList_ofList, hJ.loads_dumps]
+    · rfl
+    · intro b hb
+      obtain ⟨a, ha, rfl⟩ := mem_eraseStack.1 hb
+      refine ⟨rfl, (hinv.attrsOut _ _ ha hnot).2, ?_⟩
+      rw [hg1] at ha
+      exact (set_addNode ha).1 _ rfl
+    · rw [hasNode_eraseStack, hg1, hasNode_addNode]; exact Or.inr rfl
+
+/-- in the old format the hypothesis on the name is needed: with a start stack symbol and a state called
+INITIAL_STACK_HIDDEN the node carries `is_final`, and the import answers that there is no start stack
+symbol -/
+theorem PDA.import_old_format_needs_name (J : Json) :
+    (PDA.fromNetworkx J (PDA.toNetworkx J
+      { states := [hiddenStack], start := none, startStack := some (.int 0), finals := [], delta := [] }).eraseStack).map
+      (·.startStack) = some none := by
+  simp [PDA.fromNetworkx, PDA.toNetworkx, Graph.eraseStack, Graph.addNode, Graph.hasNode, allSome,
+    Graph.attrs, Attrs.update]
+
 /-- a toy `json` for witnesses: an int prints as its digits, a string between double quotes -/
 def toyJson : Json :=
   { dumps := fun v => match v with | .int n => (toString n).toList | .str s => '"' :: s.toList ++ ['"']
@@ -268,36 +359,17 @@ def toyJson : Json :=
     dumpsL := fun _ => "[]".toList
     loadsL := fun t => if t = "[]".toList then some [] else none }
 
-/-- the toy `loads` rejects a text that starts with the letter I -/
-theorem toyJson_loads_I (l : List Char) : toyJson.loads ('I' :: l) = none := by
-  simp only [toyJson]
-  split
-  · rename_i heq
-    simp at heq
-  rw [Option.map_eq_none_iff, String.toInt?_eq_none_iff]
-  cases h : (String.ofList ('I' :: l)).isInt with
-  | false => rfl
-  | true =>
-    rw [String.isInt_iff] at h
-    rcases h with h | ⟨t, ht, _⟩
-    · rw [String.isNat_iff] at h
-      have := h.2.1 'I' (by simp)
-      simp at this
-    · have := congrArg String.toList ht
-      simp at this
-
-/-- the `hidden` hypothesis is needed: a PDA without start stack symbol one of whose states is called
-"INITIAL_STACK_HIDDEN" is exported, but the import raises (the state's own label is read as JSON) -/
-theorem PDA.roundtrip_needs_hidden :
-    PDA.fromNetworkx toyJson (PDA.toNetworkx toyJson
-      { states := [hiddenStack], start := some hiddenStack, startStack := none, finals := [], delta := [] }) = none := by
-  have hl : "INITIAL_STACK_HIDDEN".toList = 'I' :: "NITIAL_STACK_HIDDEN".toList := by simp
+/-- KF-C20-1 repaired: a PDA without start stack symbol one of whose states is called
+"INITIAL_STACK_HIDDEN" is exported and imported back (before the repair the import raised: the state's own
+label was read as JSON) -/
+theorem PDA.roundtrip_hidden_name :
+    ∃ Q, PDA.fromNetworkx toyJson (PDA.toNetworkx toyJson
+      { states := [hiddenStack], start := some hiddenStack, startStack := none, finals := [], delta := [] }) = some Q ∧
+      Q.startStack = none ∧ Q.start = some hiddenStack ∧ (∀ q, q ∈ Q.states ↔ q = hiddenStack) ∧
+      Q.finals = [] ∧ Q.delta = [] := by
   have hm : marker hiddenStack ≠ hiddenStack := marker_ne_hidden _
   simp [PDA.fromNetworkx, PDA.toNetworkx, Graph.addNode, Graph.hasNode, addMarker, Graph.addEdge, allSome,
     Graph.attrs, Attrs.update, hm, hm.symm]
-  show Option.map some (toyJson.loads "INITIAL_STACK_HIDDEN".toList) = none
-  rw [hl, toyJson_loads_I]
-  rfl
 
 /-! ### transducers -/
 
@@ -387,6 +459,12 @@ def demoFA : FA :=
               (.int 0, some (.int 0), .str "q")] }
 
 example : demoFA.WF := by constructor <;> decide
+
+/-- a PDA with a start stack symbol and a state called like the hidden node: all hypotheses of
+`PDA.roundtrip` hold (no condition on names is left) -/
+example : PDA.WF toyJson
+    { states := [hiddenStack], start := some hiddenStack, startStack := some (.int 0), finals := [], delta := [] } := by
+  constructor <;> simp
 
 end Nx
 end Pfl
